@@ -637,3 +637,6 @@ H("recv_reinit", ["C06", "C11"], "quick", "connection::streams::recv::reinit",
 H("streams_stream_freed_native", ["C11"], "replay-only", "connection::streams::state::stream_freed_native",
   [("server", "bool"), ("raw_id", "u64"), ("half_recv", "bool"), ("other_present", "bool")], 4, [],
   ["StreamsState::stream_freed"], "native replay body of E2 query e2_stream_freed")
+H("streams_sendstream_reset_native", ["C05"], "replay-only", "connection::streams::sendstream_reset_native",
+  [("written", "u8"), ("other_data_sent", "u16")], 4, [],
+  ["SendStream::reset"], "native replay body of E2 query e2_sendstream_reset")
